@@ -21,6 +21,7 @@ from gramsym.explorer import PathAbort, FuelExhausted, Frame
 from gramsym.refs import RefUnknown
 from gramsym.lawlib import ConcreteCtx, empty_model, concrete_truth, split_option
 from gramsym.parallel import parallel_explore
+from gramsym.interp import PanicEx
 import tc_common as TC
 import c03
 
@@ -212,7 +213,10 @@ def make_family(H, n, quick, alpha=None, depth=3, deep=False):
 
         def body(ex):
             it.call_depth = 0
-            obligations(ex, it, root, steps=40)
+            try:
+                obligations(ex, it, root, steps=40)
+            except PanicEx as p:
+                ex.check(False, "PANIC %s (%s.rs:%s)" % (p.msg, p.module, p.line), info=lambda m: TC.input_case(ex, m, root))
         return ex, body, None
     return make
 
